@@ -466,12 +466,18 @@ def _bool_chain(body, start, limit=4):
     return None
 
 
+def _cfg_dependent(stmt):
+    """A literal that comes out of `cfg!(..)` is a property of the build configuration being analysed (debug
+    assertions, features), not of the code: it must not be used to decide branches."""
+    return any("cfg" in str(x) for x in (stmt.get("x") or []))
+
+
 def _const_bool_at_end(blk, local):
     """The constant assigned to `local` by the last assignment to it in the block (None if not a constant)."""
     for s in reversed(blk["stmts"]):
         if s.get("k") == "assign" and s["lhs"].get("l") == local and not s["lhs"].get("p"):
             rv = s["rv"]
-            if rv.get("k") == "use" and "k" in rv["a"] and rv["a"]["k"].get("ty") == "bool":
+            if rv.get("k") == "use" and "k" in rv["a"] and rv["a"]["k"].get("ty") == "bool" and not _cfg_dependent(s):
                 return rv["a"]["k"].get("u")
             return None
     return None
@@ -673,7 +679,7 @@ def decide_linear_bool_switches(body, max_back=6):
                         break
                     a = rv["a"]
                     if "k" in a and a["k"].get("ty") == "bool":
-                        val = a["k"].get("u")
+                        val = None if _cfg_dependent(st) else a["k"].get("u")
                         stop = True
                         break
                     sp = a.get("c") or a.get("m")
